@@ -385,6 +385,8 @@ func (w *World) genHistory(p HistParams) *History {
 		w.scenarioShortHeavy(h, deliver)
 	case "corruptsweep":
 		w.scenarioCorruptSweep(h, deliver)
+	case "stalekey":
+		w.scenarioStaleKey(h, deliver)
 	}
 	if len(h.Ops) > 0 && h.Ops[len(h.Ops)-1].Dump == nil {
 		h.Ops[len(h.Ops)-1].Dump = w.dump(h.NUT)
@@ -636,6 +638,48 @@ func (w *World) scenarioShortHeavy(h *History, deliver func(*TNode) *Op) {
 	}
 }
 
+
+// scenarioStaleKey: the alternative-tip table is keyed by the hash under which a tip was first recorded. Main chain
+// a1-a2 and an alternative branch b-c of the same weight from the same parent (no reorganisation), then a SIBLING d of
+// c (child of b) that is heavier because it commits to a1 as a side block: the node must follow d and its statistics
+// must name d's real height; afterwards the chain is extended on d and on c.
+func (w *World) scenarioStaleKey(h *History, deliver func(*TNode) *Op) {
+	base := w.nodeOfTop(h.NUT)
+	if base == nil || base.Snap == nil {
+		return
+	}
+	mk := func(parent *TNode, wi int, sides ...*TNode) *TNode {
+		n := w.build(parent, BlockSpec{TsDelta: 15000, Recipient: w.wallets[wi%len(w.wallets)].Addr, Sides: sides})
+		w.admit(n)
+		return n
+	}
+	a1 := mk(base, 0)
+	a2 := mk(a1, 1)
+	b := mk(base, 2)
+	c := mk(b, 3)
+	d := mk(b, 4, a1)
+	if !a1.Valid || !a2.Valid || !b.Valid || !c.Valid {
+		return
+	}
+	for _, n := range []*TNode{a1, a2, b, c} {
+		deliver(n)
+	}
+	op := deliver(d) // d's side block is unknown on b's own snapshot: its validity is decided by the node under test
+	op.Dump = w.dump(h.NUT)
+	if w.nodeOfTop(h.NUT) != d {
+		return
+	}
+	d.Snap, d.Valid = h.NUT.Snapshot(), true
+	e := mk(d, 0)
+	f := mk(c, 1)
+	for _, n := range []*TNode{e, f} {
+		if n.Valid {
+			op = deliver(n)
+			op.Dump = w.dump(h.NUT)
+		}
+	}
+	h.Stats["scenario-stalekey"]++
+}
 
 // scenarioCorruptSweep: every single-rule corruption of an otherwise valid block, once each, on a live chain state
 // (a fork with candidate side blocks is created first so that the side-block corruptions have material).
